@@ -28,7 +28,7 @@ PROPS['C10'] = dict(
                  'termination, stack never overflows, expect/unreachable!/index sites unreachable; (A4) SwitchActions::next returns the first firing '
                  'case from case_index on, break ends the iteration, fallthrough continues; (A5) theorem_written_condition: for every written condition tree '
                  '(leaves, and/or/not with >= 1 operand, depth <= 8) the prefix encoding with absolute end indices satisfies the evaluator precondition and '
-                 'sem_top(enc) is the meaning of the tree (structural induction over mutually recursive ghost datatypes; new_bool is proved to build the operator word enc uses); (A6) the COMPILER parser/src/cfg/switch.rs::parse_switch_case_bool, as FRAGMENTS of the real function: the prologue (size/depth checks) and the and/or/not arm (placeholder, recursion over the operands, back-patching of the absolute end index) satisfy the contract compiles(e, depth, before, after) = `after == before + enc(tree(e), |before|)` and nesting <= 9 - depth, given that contract for the recursive calls (induction step) - plus the keyword table read from the dispatch closure (or/and/not denote their own operator); (A7) every LEAF ARM of the compiler (fragments compile_key_atom, compile_key_history_arm, compile_input_arm, compile_input_history_arm, compile_key_timing_arm, compile_layer_arm): the words it appends decode, with the decoder of the evaluator, to the test that was written (row 0 real / row 1 virtual, recency n-1, comparison direction, compressed threshold, layer vs base-layer), and key-timing raises switch_max_key_timing to the maximum threshold. Kani: the same codec facts on the unextracted functions '
+                 'sem_top(enc) is the meaning of the tree (structural induction over mutually recursive ghost datatypes; new_bool is proved to build the operator word enc uses); (A6) the COMPILER parser/src/cfg/switch.rs::parse_switch_case_bool, as FRAGMENTS of the real function: the prologue (size/depth checks) and the and/or/not arm (placeholder, recursion over the operands, back-patching of the absolute end index) satisfy the contract compiles(e, depth, before, after) = `after == before + enc(tree(e), |before|)` and nesting <= 9 - depth, given that contract for the recursive calls (induction step) - plus the keyword table read from the dispatch closure (or/and/not denote their own operator); (A7) every LEAF ARM of the compiler (fragments compile_key_atom, compile_key_history_arm, compile_input_arm, compile_input_history_arm, compile_key_timing_arm, compile_layer_arm): the words it appends decode, with the decoder of the evaluator, to the test that was written (row 0 real / row 1 virtual, recency n-1, comparison direction, compressed threshold, layer vs base-layer), and key-timing raises switch_max_key_timing to the maximum threshold. (A9) the TOP LEVEL parse_switch up to its final allocation (fragment parse_switch_cases): parameters are consumed three at a time, in order (termination: decreases on the remaining parameters); each triple becomes ONE case, in the written order, whose opcodes are the concatenation lenc(trees(<key match> list), 0) of what the recursive compiler emits (entered at depth 1, so nesting <= 8), whose action is the one parse_action returns for the second element, and whose break / fallthrough is the third element\'s word. Kani: the same codec facts on the unextracted functions '
                  'over full operand domains, and each leaf arm of the real evaluate_boolean against the leaf meaning the Verus proof assumes (R5 split).'),
     verus=[dict(unit='switch', cex={'evaluate_boolean': ['c10_b_shape_nested_last_then_more', 'c10_b_shape_nested_first', 'c10_b_shape_nested_last', 'c10_b_shape_toplevel_list'], 'next': ['c10_b_case_iteration']},
                 fallback=['c10_b_shape_nested_last_then_more', 'c10_b_shape_nested_first', 'c10_b_shape_nested_last', 'c10_b_shape_toplevel_list', 'c10_b_case_iteration']), dict(unit='waiting', only=['do_action_fork'])],
@@ -54,7 +54,7 @@ PROPS['C10'] = dict(
         H('keyberon', 'action::switch', 'c10_b_shape_toplevel_list', kind='bounded', tier='thorough', bound='fixed shape (op1 a b) c + empty list'),
     ],
     assumptions=[
-        'compiler (A6): only the prologue and the and/or/not arm of parse_switch_case_bool are verified, as fragments wrapped in synthetic signatures (rewrite Rfrag; bail_expr! -> return Err (R13), `l.iter().skip(n)` -> assumed-equivalent slice helper (R14), `ops[i] = e` -> `ops.set(i, e)` (R15)). The seven leaf forms (A7: bare key, key-history, key-timing, input, input-history, layer, base-layer) are fragments under contract too: on Ok the arm appended exactly its one or two words and they decode (spec_decode) to the written test; ASSUMED there: the lookups that READ a word of the configuration (atom, number, key name, virtual-key name, layer name, key-type and comparison word) are stubs returning uninterpreted denotations (rewrites R38-R41: the lookup chains with closures and error macros are replaced by regex; the two string patterns of the comparison word become variants of a synthetic enum; the Cell switch_max_key_timing becomes an accessor pair on an &mut state); assumed ranges: key code <= 767 (C11), virtual-key index < 768 (checked where virtual keys are parsed), layer index < MAX_LAYERS (the assert! inside that closure is not decided), parse_u8_with_range returns a value within its bounds; core::cmp::max on u16; Vec::extend of two words (R19). The key-type names (real/fake/virtual) and the six leaf keywords are READ from the source and checked (a7_key_type_names, a8_leaf_names_select_their_arm). STILL ASSUMED: the arm is entered with l = the list of the expression and op = the variant its head keyword maps to (the keyword table itself is read from the source and checked); the meta-level induction over the expression that glues prologue + arm + leaf arms; the top-level loop in parse_switch (`for op in key_match.iter() { parse_switch_case_bool(1, ..) }`)',
+        'compiler (A6): only the prologue and the and/or/not arm of parse_switch_case_bool are verified, as fragments wrapped in synthetic signatures (rewrite Rfrag; bail_expr! -> return Err (R13), `l.iter().skip(n)` -> assumed-equivalent slice helper (R14), `ops[i] = e` -> `ops.set(i, e)` (R15)). The seven leaf forms (A7: bare key, key-history, key-timing, input, input-history, layer, base-layer) are fragments under contract too: on Ok the arm appended exactly its one or two words and they decode (spec_decode) to the written test; ASSUMED there: the lookups that READ a word of the configuration (atom, number, key name, virtual-key name, layer name, key-type and comparison word) are stubs returning uninterpreted denotations (rewrites R38-R41: the lookup chains with closures and error macros are replaced by regex; the two string patterns of the comparison word become variants of a synthetic enum; the Cell switch_max_key_timing becomes an accessor pair on an &mut state); assumed ranges: key code <= 767 (C11), virtual-key index < 768 (checked where virtual keys are parsed), layer index < MAX_LAYERS (the assert! inside that closure is not decided), parse_u8_with_range returns a value within its bounds; core::cmp::max on u16; Vec::extend of two words (R19). The key-type names (real/fake/virtual) and the six leaf keywords are READ from the source and checked (a7_key_type_names, a8_leaf_names_select_their_arm). Top level (A9): `ac_params.iter()` + `.next()` -> a stub iterator yielding the elements front to back (R32); `key_match.list(s.vars())`, the atom lookup of the third element with its string match (`"break"` / `"fallthrough"` / `_` -> variants of a synthetic enum, 1:1, R40), parse_action (uninterpreted function of the text) and the bump allocation `s.a.sref_vec(ops)` (same words) are stubs; the final `Ok(s.a.sref(Action::Switch(..)))` is outside the fragment. STILL ASSUMED: the arm is entered with l = the list of the expression and op = the variant its head keyword maps to (the keyword table itself is read from the source and checked); the meta-level induction over the expression that glues prologue + arm + leaf arms',
         'operators without operands, e.g. `(or)`, are accepted by the parser but excluded by the property statement ("every operator with at least one operand"): the compiler contract promises pwf (nesting, leaf words) and A5 additionally needs has_operands',
         'fork: the Fork arm of Layout::do_action is under contract as a fragment (unit waiting, do_action_fork: the right branch iff some NormalKey / FakeKey state carries a trigger code, exactly one branch performed; do_action stubbed with a call log; `right_triggers.contains(k)` rewritten to a helper usable in specifications, R33; the closure annotated from its own text, R12); the hand-off of fired switch actions into the action queue (the Switch arm: a `for` over the custom iterator) is NOT under contract',
     ],
